@@ -328,8 +328,10 @@ def check_index_provenance(run, rule):
                 n += 1
                 key = "%s:returns-the-table's-answer" % short(q)
                 mp = path(e) if isinstance(e, dict) else None
-                flags_ = [a_[1] if isinstance(a_[1], str) else ir.path_str(a_[1]) for a_ in ir.conjuncts(g) if a_[0] == "nz"]
+                flags_ = [a_[1] if isinstance(a_[1], str) else ir.path_str(a_[1]) for a_ in ir.conjuncts(g) if a_[0] in ("nz", "present")]
                 flags_ = [x_ for x_ in flags_ if x_.startswith("this.") and x_.count(".") == 1]
+                if mp and "$" in mp:
+                    mp = tuple(x_ for x_ in mp if x_ != "$")        # the payload of an optional member
                 if not (mp and len(mp) == 2 and mp[0] == "this" and flags_):
                     run.ob(rule, key, False, f, st.get("l", 0),
                            "%s returns %s, which is not what %s.add() answered" % (short(q), show(st["e"]), t))
@@ -349,6 +351,30 @@ def check_index_provenance(run, rule):
                         continue
                     lowers = any(x.get("k") == "Bin" and x.get("op") == "=" and path(x.get("lhs")) == ("this", flag) and const_value(x.get("rhs")) == 0
                                  for x in ir.walk(g_["body"]))
+                    # an optional is lowered by `= boost::none` / reset()
+                    lowers = lowers or any(
+                        (x.get("k") in ("Bin", "OpCall") and x.get("op") == "=" and
+                         path((x.get("lhs") if x["k"] == "Bin" else (x.get("args") or [None])[0]) or {}) == ("this", flag) and
+                         "none" in show(x.get("rhs") if x["k"] == "Bin" else (x.get("args") or [None, None])[1]).lower()) or
+                        (x.get("k") == "MCall" and callee_name(x) in ("reset", "clear") and path(x.get("recv")) == ("this", flag))
+                        for x in ir.walk(g_["body"]))
+                    # ... or the function replaces the table by another object's table and takes that object's memo with it:
+                    # every member the hit test reads is assigned from the same source
+                    if not lowers:
+                        src_of = {}
+                        for x in ir.walk(g_["body"]):
+                            if x.get("k") in ("Bin", "OpCall") and x.get("op") == "=":
+                                l_ = x.get("lhs") if x["k"] == "Bin" else (x.get("args") or [None])[0]
+                                r_ = x.get("rhs") if x["k"] == "Bin" else (x.get("args") or [None, None])[1]
+                                lp_, rp_ = path(l_) if l_ is not None else None, path(ir.unwrap_all_casts(r_)) if r_ is not None else None
+                                if lp_ and len(lp_) == 2 and lp_[0] == "this" and rp_ and len(rp_) == 2 and rp_[1] == lp_[1]:
+                                    src_of[lp_[1]] = rp_[0]
+                        memo_members = set(x_.split(".", 1)[1] for a_ in ir.conjuncts(g) for x_ in
+                                           ([a_[1] if isinstance(a_[1], str) else ir.path_str(a_[1])] if a_[0] in ("nz", "present") else
+                                            [y_ for y_ in a_[2:4] if isinstance(y_, str)] if a_[0] == "cmp" else [])
+                                           if isinstance(x_, str) and x_.startswith("this.") and x_.count(".") == 1) | {mp[1], flag}
+                        if t in src_of and all(src_of.get(m_) == src_of[t] for m_ in memo_members):
+                            lowers = True
                     if not lowers:
                         stale.append(short(g_["qn"]))
                 run.ob(rule, key, not stale, f, st.get("l", 0),
